@@ -150,7 +150,7 @@ class Havoc(object):
             return PrimV(a.kind, tuple(out) if isinstance(a.data, tuple) else out[0])
         if all(isinstance(v, ClosureV) for v in live) and len({v.defpath for v in live}) == 1:
             ups = [self.multi([(v.upvars[i] if v is not None else None) for v in vals], where + (("f", i),)) for i in range(len(a.upvars))]
-            return ClosureV(a.defpath, ups)
+            return ClosureV(a.defpath, ups, a.key)
         if all(isinstance(v, OpaqueV) for v in live):
             if all(v.token == a.token for v in live) and len(live) == len(vals):
                 return a
